@@ -68,7 +68,7 @@ def make_program(case) -> dict:
 def base_scenario(case) -> dict:
     prog = make_program(case)
     rng = random.Random(case.get("prog_seed", 0) * 7919 + 13)
-    sc = {"prog": prog, "seed": case.get("prog_seed", 0), "world": case.get("world") or default_world(prog, rng)}
+    sc = {"prog": prog, "seed": case.get("prog_seed", 0), "world": case.get("world") or default_world(prog, rng, det=case.get("det", False))}
     for k in ("pages", "latency_ms", "opts", "holds", "faults", "max_inv", "input"):
         if k in case:
             sc[k] = copy.deepcopy(case[k])
@@ -129,6 +129,8 @@ class Acc:
         o["api"] += sum(i["api"] for i in r["invocations"])
         o["interleavings"].add(interleaving_hash(r))
         vs = run_monitors(r, props) + list(extra_viol)
+        if callable(cls):
+            cls = cls(r)
         for v in vs:
             v = dict(v)
             c = dict(self.case)
